@@ -229,7 +229,15 @@ static void seq_case(void) {
                  * ring as it was (what follows is judged as usual) */
                 upto = true;
                 minimum = ring + 1 + (size_t)mon_below(r, 4);
+                if (mon_chance(r, 1, 3)) {
+                    /* minimum with the top bit set (an underflowed length), an exact-or-nothing request */
+                    static const size_t TOP[] = {SIZE_MAX, SIZE_MAX - 7, (size_t)1 << 63, ((size_t)1 << 63) + 4096, (size_t)3 << 62, SIZE_MAX / 2 + 1, SIZE_MAX / 2, (size_t)1 << 62};
+                    minimum = TOP[mon_below(r, sizeof(TOP) / sizeof(TOP[0]))];
+                }
                 req = mon_chance(r, 1, 3) ? SIZE_MAX : minimum + (size_t)mon_below(r, 4);
+                if (req < minimum) {
+                    req = minimum; /* the sum wrapped */
+                }
                 oversize = true;
                 mon_flag(F_UPTO_MIN_ABOVE_RING);
             }
